@@ -1,6 +1,7 @@
 """C14 — similarity metrics (narrow: error discipline, subsumer choice, forwarding, formula anchors)."""
 from __future__ import annotations
 import ast
+from ..pat import Frag
 from ..src import norm, walk_no_nested, AnalysisError
 from .c13 import forwarding, ont_subset
 
@@ -43,7 +44,7 @@ def r1_pos_check_first(ctx, res):
                                                 f'(first statement: `{first[:60]}`): synsets of incompatible parts of speech are scored '
                                                 f'instead of raising wn.Error')
     h = ctx.repo.func('similarity', '_check_if_pos_compatible')
-    src = norm(h.node)
+    src = Frag(h.node, fixed=('pos1', 'pos2', '_pos1', '_pos2'))
     key = 'pos-check-helper'
     res.inst(key, h.module.loc(h.node), 'folds s into a for both arguments, raises wn.Error')
     ok = '_pos1 = ADJ if pos1 == ADJ_SAT else pos1' in src and '_pos2 = ADJ if pos2 == ADJ_SAT else pos2' in src \
@@ -56,7 +57,7 @@ def r1_pos_check_first(ctx, res):
 def r2_error_discipline(ctx, res):
     lcs = ctx.repo.func('similarity', '_least_common_subsumers')
     key = 'lcs-raises-on-empty'
-    src = norm(lcs.node)
+    src = Frag(lcs.node)
     res.inst(key, lcs.module.loc(lcs.node), 'raise wn.Error when there is no common hypernym')
     ok = 'if not lcs' in src and any(isinstance(n, ast.Raise) and 'wn.Error' in norm(n) for n in walk_no_nested(lcs.node))
     if not ok:
@@ -114,40 +115,40 @@ def r5_anchors(ctx, res):
 
     def rets(f):
         rs = [r for r in walk_no_nested(f.node) if isinstance(r, ast.Return) and r.value is not None]
-        return [norm(r.value) for r in sorted(rs, key=lambda r: r.lineno)]
+        return [Frag(r.value) for r in sorted(rs, key=lambda r: r.lineno)]
 
     def chk(key, f, ok, msg):
         res.inst(key, f.module.loc(f.node), 'anchor')
         if not ok:
             res.find(key, f.module.loc(f.node), msg)
     f = F('path')
-    s = norm(f.node)
+    s = Frag(f.node)
     chk('formula:path', f, rets(f) == ['1 / (distance + 1)'] and 'distance = len(path)' in s
         and 'synset1.shortest_path(synset2, simulate_root=simulate_root)' in s,
         f'path() returns {rets(f)}; documented: 1 / (shortest path length + 1)')
     f = F('wup')
-    s = norm(f.node)
+    s = Frag(f.node)
     chk('formula:wup', f, rets(f) == ['2 * k / (i + j + 2 * k)'] and 'k = lcs.max_depth() + 1' in s
         and 'i = len(synset1.shortest_path(lcs, simulate_root=simulate_root))' in s
         and 'j = len(synset2.shortest_path(lcs, simulate_root=simulate_root))' in s,
         f'wup() returns {rets(f)}; documented: 2k / (i + j + 2k) with k = depth(lcs) + 1')
     f = F('lch')
-    s = norm(f.node)
+    s = Frag(f.node)
     chk('formula:lch', f, rets(f) == ['-math.log((distance + 1) / (2 * max_depth))']
         and 'distance = len(synset1.shortest_path(synset2, simulate_root=simulate_root))' in s and 'if max_depth <= 0' in s,
         f'lch() returns {rets(f)}; documented: -log((distance + 1) / (2 * max_depth)), error for max_depth <= 0')
     f = F('res')
     chk('formula:res', f, rets(f) == ['information_content(lcs, ic)'], f'res() returns {rets(f)}; documented: IC(lcs)')
     f = F('jcn')
-    s = norm(f.node)
+    s = Frag(f.node)
     chk('formula:jcn', f, rets(f) == ['0', "float('inf')", '1 / (ic1 + ic2 - 2 * ic_lcs)'] and 'if ic1 == ic2 == ic_lcs == 0' in s
         and 'elif ic1 + ic2 == 2 * ic_lcs' in s, f'jcn() returns {rets(f)}; documented: 1 / (IC1 + IC2 - 2 IC(lcs)) with the two special cases')
     f = F('lin')
-    s = norm(f.node)
+    s = Frag(f.node)
     chk('formula:lin', f, rets(f) == ['0.0', '2 * information_content(lcs, ic) / (ic1 + ic2)'] and 'if ic1 == 0 or ic2 == 0' in s,
         f'lin() returns {rets(f)}; documented: 2 IC(lcs) / (IC1 + IC2)')
     f = F('_most_informative_lcs')
-    s = norm(f.node)
+    s = Frag(f.node)
     chk('formula:most-informative', f, 'max(lcs, key=lambda ss: pos_ic[ss.id])' in s and 'pos_ic = ic[synset1.pos]' in s,
         '_most_informative_lcs no longer selects the subsumer with the greatest IC weight... (see source)')
 
